@@ -352,3 +352,28 @@ PROPS["C12"] = dict(
         seeded("hostile", "e2e", "^TestC12$", 120 if tier == "quick" else 2000, 16, timeout=900 if tier == "quick" else 3400, journal=True),
     ],
 )
+
+PROPS["C11"] = dict(
+    title="The server survives hostile control connections and cleans up after them",
+    pkg="e2e",
+    rule=("rapid-generated hostile peers against a live server (UDP on/off, TLS on/off, full handler set or one of noplay/norecord/nopause/nodescribe): "
+          "a valid conversation (play over TCP/UDP/multicast with pause and resume, record over TCP/UDP with frames, RTSP-over-HTTP GET/POST pairs, "
+          "lone GET or POST channels, WebSocket upgrades), optionally a second peer on other connections, then 1..6 grammar-aware mutations: step "
+          "deleted/duplicated/swapped, conversation cut short, Session omitted/wrong/taken from another connection, CSeq missing/duplicated/extreme, "
+          "36 hostile Transport values, headers set from a dictionary of extremes or deleted, request truncated at any percentage (later bytes splice "
+          "in), wrong Content-Length, 22 hostile SDP bodies, hostile request URIs, method or protocol version replaced, raw garbage / interleaved "
+          "frames (any channel, sizes 0..65535) / WebSocket frames spliced in, the rest of the conversation moved to another connection, a connection "
+          "closed mid-way. Oracle: the process survives (journal); a well-behaved library client is served during and after the conversation "
+          "(DESCRIBE/SETUP/PLAY and a packet received); every hostile connection that went silent is closed by the server within its timeouts "
+          "(1 s idle/read + 2.5 s; 5 s pairing wait for a lone GET channel); within 7 s every OnConnOpen/OnSessionOpen has exactly one close; a "
+          "fresh UDP client can then set up the very client ports the hostile SETUPs had claimed and receives packets; no goroutine of the library "
+          "created during the case is left; Server.Close returns. Non-trivial: the peer obtained at least one 200 before deviating. Distinct by case hash."),
+    assumptions=[
+        "timeouts are 1 s; latency verdicts are withheld (counted) when the process itself was stalled by more than 500 ms",
+        "a connection whose session records over UDP is exempt from the silence rule (the library disables the deadline there on purpose)",
+        "fixed client UDP ports 61000+8*shard are assumed free on the machine",
+    ],
+    jobs=lambda tier: [
+        seeded("conns", "e2e", "^TestC11$", 40 if tier == "quick" else 700, 16, timeout=900 if tier == "quick" else 3400, journal=True, shrinktime="60s"),
+    ],
+)
